@@ -132,6 +132,11 @@ let dispatch (cmd : string) (args : sx list) : sx =
         | _ -> failwith "smap" in
       w_opt (fun (s, i) -> L [w_assign s; w_list w_n i])
         (resolve (dsg_ g) (list_ (pair_ n_ smap_) maps) (list_ n_ inst) (assign_ s))
+  | "timeout_allowed", [res; sw; dur; limit; tol] ->
+      let res_ x = match lst x with [A "value"; v] -> OValue (nat_ v) | [A "raise"; v] -> ORaise (nat_ v) | _ -> failwith "outcome" in
+      let w_out = function OValue v -> L [A "value"; w_nat v] | ORaise v -> L [A "raise"; w_nat v] | OTimeout -> A "timeout" in
+      let p = { p_dur = nat_ dur; p_res = res_ res; p_swallow = bool_ sw } in
+      w_list w_out (allowed p (nat_ dur) (nat_ limit) (nat_ tol))
   | _ -> Dispatch2.dispatch cmd args
 
 let () =
